@@ -162,10 +162,25 @@ func isJoinCall(v xVal) bool {
 }
 
 func (x *c12) checkOnceAdd() {
-	p := x.p
-	// RunnerManager.Add: appends only when running was read unset; the running
+	// RunnerManager.Add — and RunnerCloserManager.Add when the inner Add is
+	// inlined into it: appends only when running was read unset; the running
 	// branch returns non-nil
-	fn := x.rmAdd
+	x.checkAdd(x.rmAdd, true)
+	writes := false
+	for f := range x.tree(x.cmAdd) {
+		for _, a := range FieldAccesses(f, func(id FieldID) bool { return id == x.rmRunners }) {
+			if a.Kind == AccWrite {
+				writes = true
+			}
+		}
+	}
+	if writes {
+		x.checkAdd(x.cmAdd, false)
+	}
+}
+
+func (x *c12) checkAdd(fn *ssa.Function, must bool) {
+	p := x.p
 	construct := FuncName(p, fn) + " rejects after start"
 	x.seen("C12.K0-once", construct, p.Pos(fn.Pos()))
 	const (
@@ -175,12 +190,11 @@ func (x *c12) checkOnceAdd() {
 	nW := 0
 	cl := &xClient{NoInline: func(f *ssa.Function) bool { return x.anchors[f] && f != fn }}
 	cl.OnBranch = func(st *xState, ifi *ssa.If, cond xVal, truth bool) bool {
-		if x.loadIs(cond, x.rmRunning) {
-			if truth {
-				st.Client |= bSet
-			} else {
-				st.Client |= bUnset
-			}
+		if x.flagSet(cond, truth, x.rmRunning) {
+			st.Client |= bSet
+		}
+		if x.flagUnset(cond, truth, x.rmRunning) {
+			st.Client |= bUnset
 		}
 		return true
 	}
@@ -202,7 +216,7 @@ func (x *c12) checkOnceAdd() {
 	}
 	ex := newXplorer(p, x.ssaPkg, cl)
 	ex.Explore(fn, nil, 0)
-	if nW == 0 {
+	if nW == 0 && must {
 		x.undecide("%s no longer stores to the runners (Add restructured)", FuncName(p, fn))
 	}
 }
@@ -282,7 +296,7 @@ func (x *c12) checkRunnerRun() {
 			if x.tasWon(cond, truth, x.rmRunning) {
 				st.Client |= bOwn
 			}
-			if x.loadIs(cond, x.rmRunning) && !truth {
+			if x.flagUnset(cond, truth, x.rmRunning) {
 				st.Client |= bLoaded
 			}
 			if joinNilFact(cond, truth) == 1 {
@@ -337,7 +351,7 @@ func (x *c12) checkRunnerRun() {
 		cl.OnInstr = func(st *xState, in ssa.Instruction, replay bool) bool {
 			switch v := in.(type) {
 			case *ssa.Call:
-				if c, ok := x.flagCall(v, x.rmRunning, "Store"); ok && len(c.Call.Args) == 2 && c12IsConstBool(c.Call.Args[1], true) && st.Client&bLoaded != 0 {
+				if x.flagSetCall(v, x.rmRunning) && st.Client&bLoaded != 0 {
 					st.Client |= bStored
 				}
 			case *ssa.Go:
